@@ -86,8 +86,9 @@ def r1(ctx):
                           "stored value must be the snapshot's balance", sites=[e["sp"]], got=render(v))
             else:
                 r = render(v)
+                tf = common.agg_fields(v, "Timed::Timed")
                 ctx.check("AssetState::update_from_balance:init-source",
-                          "value: snapshot.0.balance" in r and "time: snapshot.0.time_exchange" in r,
+                          tf == {"value": "snapshot.0.balance", "time": "snapshot.0.time_exchange"},
                           "initial balance must pair the snapshot's balance with the snapshot's time",
                           sites=[e["sp"]], got=r)
     ctx.floor("stores to AssetState.balance", n, 3)
